@@ -1,7 +1,7 @@
 #!/venv/bin/python
 """Generate the TLC configurations of the core spec (one family per property). Run from spec/core."""
 ALL = ["CreateGroup", "CreateObject", "AddData", "CreateWithUid", "Rename", "SetFlag", "SetVal", "Move", "MoveSame", "AddToGroup",
-       "AddDataFails", "StripOpt", "SaveAs", "Helper", "Copy2", "Remove2", "ScrubData", "CreateDeferred",
+       "AddDataFails", "StripOpt", "SaveAs", "Helper", "Copy2", "Remove2", "ScrubData", "CreateDeferred", "PGWithUid",
        "RemoveFromGroup", "RemovePG", "RemoveViaWorkspace", "RemoveViaParent", "DropRef", "Collect", "Purge",
        "LookupDead", "Copy", "Close", "Open", "CallClosed"]
 INV_ASBUILT = ["TypeOK", "DirtyOnlyInRW", "W2WellFormed", "ReopenEqualsLive", "LinksToNodes", "OneParent", "PGPropsAreChildren", "WriteThrough",
@@ -30,7 +30,7 @@ def minus(*drop):
 
 
 GC = ["DropRef", "Collect", "Purge", "LookupDead"]
-NEW = ["MoveSame", "AddDataFails", "StripOpt", "SaveAs", "Helper", "Copy2", "Remove2", "ScrubData", "CreateDeferred"]
+NEW = ["MoveSame", "AddDataFails", "StripOpt", "SaveAs", "Helper", "Copy2", "Remove2", "ScrubData", "CreateDeferred", "PGWithUid"]
 BASE = minus("CreateWithUid", "CallClosed", *NEW)
 # --- C01: histories of create/assign/rename/move/copy/delete with close/re-open and GC points
 cfg("C01_quick", 1, 1, 1, 1, [a for a in BASE if a != "SetFlag"] + ["MoveSame", "CreateDeferred"], 6, names=("a",), vals=(1, 2))
@@ -42,6 +42,9 @@ cfg("C01_thorough", 2, 1, 2, 1, BASE + ["MoveSame", "AddDataFails", "SaveAs", "C
 C02A = ["CreateGroup", "CreateObject", "AddData", "Move", "MoveSame", "AddToGroup", "RemoveViaWorkspace", "RemoveViaParent",
         "Copy", "Close", "Open", "AddDataFails"] + GC
 cfg("C02_quick", 2, 1, 1, 1, C02A, 6, names=("a",), vals=(1,))
+# data that are members of property groups re-parented between objects
+cfg("C02mv_quick", 0, 2, 2, 2, ["CreateObject", "AddData", "AddToGroup", "Move", "MoveSame", "Copy", "RemoveViaParent", "Close", "Open"], 6,
+    names=("a",), vals=(1,))
 cfg("C02_thorough", 2, 2, 2, 2, C02A + ["RemoveFromGroup", "SaveAs"], 6, names=("a",), vals=(1,))
 # --- C05: removal through both entry points; data in 0/1/2 property groups; survivors keep working
 C05A = ["CreateGroup", "CreateObject", "AddData", "AddToGroup", "SetFlag", "RemoveViaWorkspace", "RemoveViaParent", "RemovePG",
@@ -51,6 +54,9 @@ cfg("C05_thorough", 2, 1, 2, 2, C05A + ["RemoveFromGroup", "Move"], 7, names=("a
 # --- C06: identifiers: explicit uids, collisions with live entities of any kind, re-creation, copies
 C06A = ["CreateGroup", "CreateObject", "AddData", "CreateWithUid", "RemoveViaWorkspace", "RemoveViaParent", "Copy", "Close",
         "Open"] + GC
+# property groups requested with identifiers in use (same object, other object, entities of other kinds)
+cfg("C06pg_quick", 0, 2, 2, 2, ["CreateObject", "AddData", "AddToGroup", "PGWithUid", "RemoveFromGroup", "Close", "Open"], 6,
+    names=("a", "b"), vals=(1,))
 cfg("C06_quick", 2, 1, 1, 1, C06A, 6, names=("a",), vals=(1,))
 cfg("C06_thorough", 2, 2, 2, 1, C06A + ["AddToGroup"], 6, names=("a",), vals=(1,))
 # cross-workspace copies: identifiers kept when free in the target, fresh otherwise (also after freeing them again)
